@@ -32,7 +32,7 @@ EXTRA = ['TIME_INTERVAL', 'PI_CONTACT_INFO', 'PLATFORM', 'REVISION', 'DATA_INFO'
 ATTRVAL = {'VOLUME_INFO': '1, 1', 'TIME_INTERVAL': '60', 'REVISION': 'R0', 'PI_NAME': 'Doe, Jane', 'R0': 'first: version',
            'OTHER_COMMENTS': '', 'STIPULATIONS_ON_USE': ''}
 VALS = [0., 1.5, -2.25, 1234567., 1e-20, -3.3e15, 123456789., 0.1, 1 / 3., 2 / 3., 99999995., -0.000123456749]
-CODES = [-999, -9999, -99999, -8888.5, 9999999, -9999999, -99999999, -999.25]
+CODES = [-999, -9999, -99999, -8888.5, 9999999, -9999999, -99999999, -999.25, -9999999999999, -9999999999.5]      # also codes spelt with more characters than a formatted value
 
 
 def gen(rng, tier):
@@ -49,7 +49,11 @@ def gen(rng, tier):
             if nocode:
                 code = -999
             near = [code * (1 - 5e-6), code * (1 + 3e-6), code + 0.05 * (1 if abs(code) < 1e5 else 1000)]   # close to the code, different at 7 digits
-            deps.append(dict(name=rng.choice(['O3', 'NO2_ppbv', 'CO', 'Alt/m', 'T']) + str(i), unit=rng.choice(['ppbv', 'm', 'K', 'molec cm-3', 'unknown', 'mol/(m2 s)', 'ug/m3 (STP)', '(dimensionless)']),
+            nm = rng.choice(['O3', 'NO2_ppbv', 'CO', 'Alt/m', 'T', 'Cloud_Flag', 'pH_index']) + str(i)
+            deps.append(dict(name=nm, unit=rng.choice(['ppbv', 'm', 'K', 'molec cm-3', 'unknown', 'mol/(m2 s)', 'ug/m3 (STP)', '(dimensionless)',
+                                                       # no units at all (a flag, a counter); units spelt like the variable itself
+                                                       '', nm.replace('/', '_')]),
+                             vscale=rng.choice([None, None, None, None, 0.5, 1000., 2]),     # a `scale` attribute on the input variable
                              code=code, nocode=nocode, fill=rng.choice([code, code, -7777, 1e20]),
                              vals=[rng.choice(VALS + near + [rng.uniform(-1, 1) * 10 ** rng.randint(-8, 8)]) for _ in range(nrec)],
                              mask=[rng.random() < 0.25 for _ in range(nrec)]))
@@ -81,6 +85,8 @@ def build(case):
         v = f.createVariable(d['name'], 'd', ('POINTS',), fill_value=d['fill'])
         v[:] = np.ma.masked_array(np.array(d['vals'], dtype='d'), mask=np.array(d['mask']))
         v.units = d['unit']
+        if d.get('vscale') is not None:
+            v.scale = d['vscale']
         if not d.get('nocode'):
             v.missing_value = d['code']
     if ipos == len(case['deps']):
@@ -298,9 +304,10 @@ def oracle(case, res):
         nm, un, cs, cv, cells = got.split('|')
         if bytes.fromhex(nm).decode() != d['name'].replace('/', '_'):
             return 'variable %s read as %s' % (d['name'], bytes.fromhex(nm).decode())
-        if bytes.fromhex(un).decode() != d['unit']:
-            return 'unit of %s: %s read, %s written' % (d['name'], bytes.fromhex(un).decode(), d['unit'])
-        if Fraction(cv) != Fraction(str(d['code'])):
+        und = '' if un == '~' else bytes.fromhex(un).decode()
+        if und != d['unit']:
+            return 'unit of %s: %r read, %r written' % (d['name'], und, d['unit'])
+        if Fraction(cv) != Fraction(float(d['code'])):
             return 'missing code of %s: %s read, %s written' % (d['name'], cv, d['code'])
         cl = cells.split(',')
         for i, (c, x, m) in enumerate(zip(cl, d['vals'], d['mask'])):
